@@ -95,6 +95,8 @@ type FuncContract struct {
 	FPInexact    bool
 	FPAbstract   bool // floats are unconstrained values (NaN/Inf included); only float-independent facts are provable
 	Contended bool // runs concurrently with writers of the mutexes it read-locks
+	Variant   string // "" or the name of the verification variant this contract belongs to
+	Interference []DynCall // environment steps (fnspecs) that may happen between any two steps of this function
 }
 
 type AssertHook struct {
@@ -226,7 +228,7 @@ var clauseKeywords = map[string]bool{
 	"props": true, "requires": true, "ensures": true, "onpanic": true, "modifies": true, "nopanic": true,
 	"maypanic": true, "recovers": true, "loop": true, "dyncall": true, "ghost": true, "assert": true,
 	"sweep": true, "trusted": true, "unreachable": true, "note": true, "implements": true, "arith": true,
-	"panics": true, "inv": true, "hyp": true, "goal": true, "vars": true, "thread-root": true, "assume-ranges": true, "fp-monotone": true, "fp-inexact": true, "fp-abstract": true, "contended": true,
+	"panics": true, "inv": true, "hyp": true, "goal": true, "vars": true, "thread-root": true, "assume-ranges": true, "fp-monotone": true, "fp-inexact": true, "fp-abstract": true, "contended": true, "interference": true,
 }
 
 func firstWord(s string) (string, string) {
@@ -355,6 +357,13 @@ func (cs *ContractSet) LoadContractFile(path, pkgPath string) error {
 				}
 			} else {
 				fc.Target = strings.TrimSpace(rest)
+				// "func X @variant": a second contract of the same function, verified in its own pass
+				// (e.g. under interference); inside that pass callees are used by their contract of the
+				// same variant only
+				if k := strings.Index(fc.Target, " @"); k > 0 {
+					fc.Variant = strings.TrimSpace(fc.Target[k+2:])
+					fc.Target = strings.TrimSpace(fc.Target[:k])
+				}
 			}
 			for _, c := range it.clauses {
 				if err := cs.parseClause(fc, c, path); err != nil {
@@ -365,6 +374,9 @@ func (cs *ContractSet) LoadContractFile(path, pkgPath string) error {
 				cs.FnSpecs[fc.Name] = fc
 			} else {
 				key := pkgPath + "." + fc.Target
+				if fc.Variant != "" {
+					key += "@" + fc.Variant
+				}
 				if _, dup := cs.Funcs[key]; dup {
 					return fmt.Errorf("%s:%d: duplicate contract for %s", path, it.head.line, key)
 				}
@@ -610,6 +622,26 @@ func (cs *ContractSet) parseClause(fc *FuncContract, c rawLine, path string) err
 			}
 		}
 		fc.DynCalls = append(fc.DynCalls, dc)
+	case "interference":
+		// interference <fnspec>(<args>): between any two steps of this function other threads may perform any
+		// number of steps described by the fnspec (a reflexive-transitive environment relation)
+		spec := strings.TrimSpace(body)
+		k := lastOpenParen(spec)
+		if k <= 0 || !strings.HasSuffix(spec, ")") {
+			return fmt.Errorf("%s:%d: interference <fnspec>(<args>)", path, c.line)
+		}
+		dc := DynCall{Name: "env", Spec: strings.TrimSpace(spec[:k]), HasArgs: true}
+		for _, a := range splitTop(spec[k+1:len(spec)-1], ',') {
+			if strings.TrimSpace(a) == "" {
+				continue
+			}
+			ex, err := parseSpecExpr(strings.TrimSpace(a))
+			if err != nil {
+				return fmt.Errorf("%s:%d: %v", path, c.line, err)
+			}
+			dc.Args = append(dc.Args, ex)
+		}
+		fc.Interference = append(fc.Interference, dc)
 	case "ghost", "assert":
 		// ghost before|after call <callee> [#k] : stmt ; stmt
 		// assert before|after call <callee> [#k] : expr
